@@ -286,6 +286,12 @@ pub struct StoreState {
     pub plan: Plan,
     /// list results newest first (the contract leaves the listing order to the store)
     pub newest_first: bool,
+    /// keep one credential per (RP ID, account) as authenticatorMakeCredential prescribes ("if a credential
+    /// for the same RP ID and account ID already exists on the authenticator, overwrite that credential"):
+    /// the account is the user entity handed to `save_credential`
+    pub one_per_account: bool,
+    /// (credential id, RP entity id, user entity id) of every saved credential
+    pub accounts: Vec<(Vec<u8>, String, Vec<u8>)>,
 }
 
 #[derive(Clone)]
@@ -303,6 +309,8 @@ impl RecStore {
                 creds: Vec::new(),
                 plan: Plan::default(),
                 newest_first: false,
+                one_per_account: false,
+                accounts: Vec::new(),
             })),
             log,
             disc,
@@ -324,6 +332,9 @@ impl RecStore {
     }
     pub fn set_yields(&self, k: Kind, n: usize) {
         self.state.lock().unwrap().plan.yields.insert(k, n);
+    }
+    pub fn set_one_per_account(&self, v: bool) {
+        self.state.lock().unwrap().one_per_account = v;
     }
     pub fn set_newest_first(&self, v: bool) {
         self.state.lock().unwrap().newest_first = v;
@@ -438,7 +449,16 @@ impl CredentialStore for RecStore {
         }
         // single step after the last yield: a cancelled call either happened or did not
         let ev = mk(Ok(()));
-        self.state.lock().unwrap().creds.push(cred);
+        {
+            let mut g = self.state.lock().unwrap();
+            if g.one_per_account {
+                let gone: Vec<Vec<u8>> = g.accounts.iter().filter(|(_, r, u)| *r == rp.id && u.as_slice() == user.id.as_slice()).map(|(i, _, _)| i.clone()).collect();
+                g.creds.retain(|c| !gone.iter().any(|i| c.credential_id.as_slice() == i.as_slice()));
+                g.accounts.retain(|(i, _, _)| !gone.contains(i));
+            }
+            g.accounts.push((cred.credential_id.to_vec(), rp.id.clone(), user.id.to_vec()));
+            g.creds.push(cred);
+        }
         self.log.push(self.actor, ev);
         Ok(())
     }
